@@ -73,6 +73,11 @@ def gen_cases(ctx):
         if ctx.take(i):
             yield {"bulk": n}
         i += 1
+    # update_cache under I/O errors: whenever it *returns*, the file must be exact
+    for shape in ("first", "stale-grow", "stale-shrink"):
+        if ctx.take(i):
+            yield {"faults": shape}
+        i += 1
     L = 3 if ctx.quick else 4
     for n in range(1, L + 1):
         for combo in itertools.product(range(len(ALPHA)), repeat=n):
@@ -235,11 +240,81 @@ def run_bulk(ctx, case):
     ctx.distinct("nontrivial", ["bulk", case["bulk"]])
 
 
+def run_faults(ctx, case):
+    """Every file-system step of an update_cache() that has something to write fails once with an I/O error. The call
+    may raise; if it returns, the statement's post-condition holds: the cache file is exactly the workspace."""
+    import signac
+
+    from .. import faultrun
+
+    shape = case["faults"]
+
+    def sps(n, off=0):
+        return [{"a": off + k} for k in range(n)]
+
+    def setup(root):
+        p = signac.init_project(root)
+        if shape == "first":
+            for sp in sps(3):
+                p.open_job(sp).init()
+        else:
+            for sp in sps(4):
+                p.open_job(sp).init()
+            p.update_cache()
+            if shape == "stale-grow":
+                for sp in sps(3, 10):
+                    p.open_job(sp).init()
+            else:
+                for sp in sps(2):
+                    p.open_job(sp).remove()
+        return {"p": signac.Project(root)}
+
+    def op(root, st):
+        st["ret"] = st["p"].update_cache()
+
+    base = ctx.scratch("uf")
+    root0 = os.path.join(base, "rec")
+    os.makedirs(root0)
+    rec = faultrun.run(setup, op, root0)
+    if rec["outcome"] != "returned":
+        raise RuntimeError(f"recording run failed: {rec}")
+    n = 0
+    for st in rec["steps"]:
+        if not st["mut"]:
+            continue
+        for ename, eno in sorted(faultrun.ERRNOS.items()):
+            if ename == "EXDEV" and st["kind"] not in ("rename", "replace"):
+                continue
+            root = os.path.join(base, f"r{n}")
+            n += 1
+            os.makedirs(root)
+            res = faultrun.run(setup, op, root, plan=("err", st["k"], eno))
+            ctx.monitor("update_cache_under_io_error")
+            if res["outcome"] == "returned":
+                want = {j: sp for j, sp in ((d, model.read_json(os.path.join(root, "workspace", d, model.SP_FILE)))
+                                            for d in os.listdir(os.path.join(root, "workspace")))}
+                content = read_cache_file(root)
+                if content is None or set(content) != set(want) or any(not model.typed_eq(content[k], want[k]) for k in want):
+                    ctx.violation("update_cache-returns-although-write-failed",
+                                  "update_cache() returned normally after an injected I/O error, but the cache file is not exactly the workspace",
+                                  {"shape": shape, "step": st["ev"], "errno": ename,
+                                   "file_ids": sorted(content or {})[:8], "workspace_ids": sorted(want)[:8]})
+                    return
+            elif res["outcome"] != "raised":
+                ctx.count("fault_point_not_reached")
+            ctx.distinct("nontrivial", ["faults", shape, st["k"], ename])
+            import shutil
+
+            shutil.rmtree(root, ignore_errors=True)
+
+
 def run_case(ctx, case):
     import signac
 
     if "bulk" in case:
         return run_bulk(ctx, case)
+    if "faults" in case:
+        return run_faults(ctx, case)
     A = sig.new_project(ctx, "c8")
     path = A.path
     B = signac.Project(path)  # long-lived observer
